@@ -76,7 +76,7 @@ def run(ctx):
     repo = c.REPO
     ctx.assumptions += [
         "undefined behaviour of the COMPILED code is observable only through hook H2 (cfg concordium_base_verif: bounds assertions next to every unchecked access of machine.rs) and catch_unwind; machine safety is correspondence-only (no theorem over Machine.v); safety on the reference semantics is proved (accepted_never_stuck)",
-        "the parser (parse.rs) is not modelled except for its LEB128 readers and the table/memory limit checks: parser totality and section handling are exercised (byte/LEB/section mutants, random bytes, corpus), not proved",
+        "the parser (parse.rs) is modelled in Wasm/Parse.v (skeleton, all sections, opcode decoder, constant expressions, LEB128) and tied on every byte-level case of at most 64 KiB (verdict under both configs, skeleton sections or error class); totality and the allocation bound are theorems about that model; the implementation itself is additionally exercised for panics/hangs (catch_unwind, watchdog); instruction indices are truncated to the input length in the model (no index space can be longer)",
         "the model keeps each control frame's operands inside the frame (data refinement of the single operand vector with frame heights); equality of verdict and max height with the implementation is checked on every structured case",
         "import/export name tables of the v0/v1 validators: transcribed in Wasm/Imports.v and tied query by query (every validate_import_function / validate_export_function call of the harness is also answered by the extracted Coq tables), plus an independently written expectation table in the harness",
         "type soundness is proved for the reference semantics Wasm/Sem.v under well-typed host functions (hypothesis host_ok); the decoding of the binary into the structured module (corresponds vm m) is a hypothesis of accepted_never_stuck",
@@ -230,6 +230,7 @@ def run(ctx):
     files = wasm_corpus(repo)
     rc, out = c.run_bin(binp, ["bytes", ctx.seed, n_bytes] + files, timeout=3000)
     bstats = None
+    pcases = []
     for l in out.splitlines():
         if not l.startswith("{"):
             continue
@@ -238,6 +239,62 @@ def run(ctx):
             viol(j, "%s (%s %s)" % (j["violation"], j.get("kind", ""), j.get("id", "")))
         elif "stats" in j:
             bstats = j["stats"]
+        elif "pc" in j:
+            pcases.append(j)
+    # ---- the parser model (Wasm/Parse.v + Validate.v) on the same byte strings -------------------
+    SK = {"magic": "magic", "version": "version", "section-order": "section-order", "section-id": "section-id",
+          "byte-array": "size", "eof": "eof/leb", "leb-overflow": "eof/leb", "leb-range": "eof/leb"}
+    MK = {"magic": "magic", "version": "version", "section-order": "section-order", "section-id": "section-id",
+          "size": "size", "eof": "eof/leb", "leb": "eof/leb"}
+    rcm, mout = run_model(runner, ["BYTES " + x["b"] for x in pcases], timeout=2400)
+    pm = {"cases": len(pcases), "verdict_mismatch": 0, "skeleton_mismatch": 0, "fuel": 0, "accepted": 0, "by_kind": {}, "max_alloc_per_byte": 0.0}
+    for x, mo in zip(pcases, mout + ["runner-failed"] * (len(pcases) - len(mout))):
+        kk = pm["by_kind"].setdefault(x["kind"], {"n": 0, "accepted": 0})
+        kk["n"] += 1
+        key = c.digest(x["b"])
+        seen.add(key)
+        rep = {"id": x["pc"], "kind": x["kind"], "module_hex": x["b"], "impl": {k: x[k] for k in ("v0", "v1", "skel")}, "model": mo}
+        if not mo.startswith("v0="):
+            pm["verdict_mismatch"] += 1
+            viol(rep, "parser model failed on %s: %s" % (x["pc"], mo[:100]))
+            continue
+        parts = dict(p.split("=", 1) for p in mo.split(" "))
+        if "FUEL" in mo:
+            pm["fuel"] += 1
+            viol(dict(rep, theorem="parse_total"), "the parser model ran out of fuel on %s" % x["pc"])
+            continue
+        if x["v1"] == "ok":
+            kk["accepted"] += 1
+            pm["accepted"] += 1
+            nontrivial.add(key)
+        for cfgk in ("v0", "v1"):
+            ia, ma = x[cfgk] == "ok", parts[cfgk].startswith("ok")
+            if "PANIC" in x[cfgk]:
+                continue  # already reported by the harness
+            if ia != ma:
+                pm["verdict_mismatch"] += 1
+                viol(dict(rep, theorem="accepted_bytes_never_stuck / parse_sections_ordered"),
+                     "bytes %s (%s, config %s): implementation %s, parser+validation model %s" % (x["pc"], x["kind"], cfgk, x[cfgk], parts[cfgk]))
+                break
+            if ma:
+                alloc = int(parts[cfgk].split(":")[1])
+                n = max(1, len(x["b"]) // 2)
+                pm["max_alloc_per_byte"] = max(pm["max_alloc_per_byte"], alloc / n)
+                if alloc > 14 * (1000 + 64) * n:
+                    viol(dict(rep, theorem="parse_alloc_bounded"), "ghost allocation %d exceeds the proved bound on %s" % (alloc, x["pc"]))
+        # skeleton: same sections (id:len) when accepted, same error class when rejected
+        si, sm = x["skel"], parts["skel"]
+        if si.startswith("ok") or sm.startswith("ok"):
+            if si != sm:
+                pm["skeleton_mismatch"] += 1
+                viol(dict(rep, theorem="parse_sections_ordered"), "skeleton of %s (%s): implementation %s, model %s" % (x["pc"], x["kind"], si[:120], sm[:120]))
+        elif not si.startswith("PANIC"):
+            ci, cm = SK.get(si[4:], "other:" + si[4:]), MK.get(sm[4:], "other:" + sm[4:])
+            if ci != cm:
+                pm["skeleton_mismatch"] += 1
+                viol(rep, "skeleton error class of %s (%s): implementation %s, model %s" % (x["pc"], x["kind"], si, sm))
+    ctx.cov["traces_validated_against_impl"] += len(pcases)
+    ctx.notes["parser_model"] = pm
     if rc != 0 or bstats is None:
         ctx.violation({"layer": "harness run (bytes)", "rc": rc, "output": out[-1500:]}, "byte-level harness crashed or hung", no_input=True)
     else:
